@@ -429,6 +429,10 @@ def run(ctx):
     from .c04 import r04d
     r04d(ctx)    # a non-definitive cached interval makes results depend on the order bounds()/tighten_bounds() are called
     r05f(ctx)
+    from .c04 import r04i
+    r04i(ctx)    # the interval reported while the sub-edit iterator is open depends on what was refined first (and can invert)
+    from .c13 import h13
+    h13(ctx)     # byte strings raise an internal error in whatever order they are refined or listed
     from .c03 import r03h
     r03h(ctx)    # a matcher that collapses equal elements gives a cost (and termination) that depends on the call order
     ctx.assume("sub-edits hold no reference to the edit that owns them (calls on other objects do not change self's fields)")
